@@ -310,7 +310,8 @@ public:
         if (code == control_code_e::connack)
             return on_connack(first, last);
 
-        if (!_ctx.co_props[prop::authentication_method].has_value())
+        // an AUTH packet is expected only if an authenticator takes part
+        if (_ctx.authenticator.method().empty())
             return do_shutdown(client::error::malformed_packet);
 
         on_auth(first, last);
@@ -340,7 +341,7 @@ public:
         if (*rc)
             return do_shutdown(asio::error::try_again);
 
-        if (_ctx.co_props[prop::authentication_method].has_value())
+        if (!_ctx.authenticator.method().empty())
             return _ctx.authenticator.async_auth(
                 auth_step_e::server_final,
                 ca_props[prop::authentication_data].value_or(""),
